@@ -19,18 +19,65 @@ def defaults(skel, nm, ulist=3, ulab=3):
     return p
 
 
-def job(skel, nm=1, ulist=3, ulab=3, unwind=1 << 30, **over):
+import itertools
+
+
+def job(func, skel, nm=1, ulist=3, ulab=3, **pins):
+    """one job = one skeleton with some choices pinned (keys like n0_op -> parameter n0.op)"""
     p = defaults(skel, nm, ulist, ulab)
-    name = "%s-nm%d" % (skel, nm)
-    for k, v in sorted(over.items()):
-        key = k.replace("_", ".", 1) if k[0] == "n" and k[1].isdigit() else k
+    name = "%s-nm%d-u%d%d" % (skel, nm, ulist, ulab)
+    for k, v in pins.items():
+        key = k.replace("_", ".")
+        assert key in p, key
         p[key] = v
         name += "-%s%d" % (key.replace(".", ""), v)
-    return {"name": name, "func": "VerifHarness_Dead", "params": p, "unwind": unwind, "reach": ["end"]}
+    return {"name": name, "func": func, "params": p, "unwind": 1 << 30, "reach": ["end"]}
+
+
+def expand(func, skel, nm=1, ulist=3, ulab=3, **lists):
+    """cartesian product over pinned choices given as lists"""
+    keys = sorted(lists)
+    out = []
+    for vals in itertools.product(*[lists[k] if isinstance(lists[k], (list, tuple)) else [lists[k]] for k in keys]):
+        out.append(job(func, skel, nm, ulist, ulab, **dict(zip(keys, vals))))
+    return out
+
+
+# operator classes of a vector/vector binary node: (op, card) ; op: 0 arith 1 cmp 2 cmp-bool 3 and 4 or 5 unless
+VV = [(0, 0), (0, 1), (0, 2), (1, 0), (1, 1), (1, 2), (2, 0), (2, 1), (2, 2), (3, 0), (4, 0), (5, 0)]
+VV_QUICK = [(0, 0), (0, 1), (0, 2), (1, 0), (3, 0), (4, 0), (5, 0)]
+
+
+def vv(func, skel, classes, node=0, **kw):
+    out = []
+    for op, card in classes:
+        pins = dict(kw)
+        pins["n%d_op" % node] = op
+        if op <= 2:
+            pins["n%d_card" % node] = card
+            pins.setdefault("n%d_arith" % node if op == 0 else "n%d_cmp" % node, 0)
+        out += expand(func, skel, **pins)
+    return out
 
 
 def jobs(tier):
+    D = "VerifHarness_Dead"
     out = []
+    if tier == "quick":
+        out += vv(D, "Bss", VV_QUICK, ulist=2, ulab=2)
+        out += vv(D, "BsAs", VV_QUICK, ulist=2, ulab=2, n3_nm=0, n2_aop=[0], n2_aggop=0)
+        return out
+    if tier == "dev":
+        # development sweep: every skeleton family with small bounds
+        out += vv(D, "BAss", VV_QUICK, ulist=2, ulab=2, n2_nm=0, n1_aop=[0, 1], n1_aggop=0)
+        out += vv(D, "BAss", VV_QUICK, ulist=2, ulab=2, n2_nm=0, n1_aop=2, n1_cvl=[0, 2])
+        out += vv(D, "BsAs", VV_QUICK, ulist=2, ulab=2, n3_nm=0, n2_aop=1, n2_aggop=0)
+        out += vv(D, "BsAs", VV_QUICK, ulist=2, ulab=2, n3_nm=0, n2_aop=2, n2_cvl=[0, 2])
+        out += vv(D, "BsFs", VV_QUICK, ulist=2, ulab=2, n2_fn=[0, 1], n2_fnalt=0)
+        out += vv(D, "BsFs", VV_QUICK, ulist=2, ulab=2, n2_fn=2, n2_fnalt=0, n2_dst=[0, 2])
+        out += vv(D, "BFss", VV_QUICK, ulist=2, ulab=2, n1_fn=[0, 1], n1_fnalt=0)
+        out += vv(D, "BFss", VV_QUICK, ulist=2, ulab=2, n1_fn=2, n1_fnalt=0, n1_dst=[0, 2])
+        return out
     return out
 
 
